@@ -187,6 +187,22 @@ async fn ep_flow_raw(rqctx: RequestContext<()>, path: Path<PN>, body: UntypedBod
     Ok(HttpResponseOk(p.n))
 }
 
+// the same raw body through the RawRequest extractor (hyper's own request, handed over untouched)
+#[endpoint { method = PUT, path = "/b/rawreq/{n}" }]
+async fn ep_flow_rawreq(rqctx: RequestContext<()>, path: Path<PN>, raw: dropshot::RawRequest) -> Result<HttpResponseOk<String>, HttpError> {
+    use http_body_util::BodyExt;
+    let p = path.into_inner();
+    let bytes = raw
+        .into_inner()
+        .into_body()
+        .collect()
+        .await
+        .map_err(|e| HttpError::for_bad_request(None, format!("raw body: {}", e)))?
+        .to_bytes();
+    echo(&rqctx, &p.n.clone(), json!({"body": hex(&bytes)}));
+    Ok(HttpResponseOk(p.n))
+}
+
 #[endpoint { method = POST, path = "/b/multipart/{n}" }]
 async fn ep_flow_multipart(rqctx: RequestContext<()>, path: Path<PN>, mut body: MultipartBody) -> Result<HttpResponseOk<String>, HttpError> {
     let p = path.into_inner();
@@ -529,7 +545,7 @@ fn build(r: &mut StdRng, n: &str, comps: &[Value], valid: bool) -> Built {
                     "text" => "plain text é日本 \r\n\r\n GET / HTTP/1.1".as_bytes().to_vec(),
                     _ => (0..r.gen_range(100000..300000)).map(|_| r.gen()).collect(),
                 };
-                target = format!("/b/raw/{}", n);
+                target = format!("/b/{}/{}", if r.gen_bool(0.5) { "raw" } else { "rawreq" }, n);
                 headers.push(("content-type".into(), "application/octet-stream".into()));
                 want_whole = Some(json!({"body": hex(&bytes)}));
                 body = Some(bytes);
@@ -764,6 +780,7 @@ fn main() {
         api.register(ep_flow_json).unwrap();
         api.register(ep_flow_form).unwrap();
         api.register(ep_flow_raw).unwrap();
+        api.register(ep_flow_rawreq).unwrap();
         api.register(ep_flow_multipart).unwrap();
         let log = slog::Logger::root(slog::Discard, slog::o!());
         let config = ConfigDropshot {
